@@ -1,5 +1,6 @@
 """C19 — a failed save never damages the file on disk; a successful one loads back."""
 import builtins
+import copy
 import json
 import os
 
@@ -210,6 +211,79 @@ def history_stream(ctx, res):
                 res.hist["save-values:save-raised:%s" % type(e).__name__] += 1
                 continue
             loads_back(s, cfg, dest, fmt, kp, {}, case, "save-values")
+    # (a'') shapes a successful save has to bring back: empty strings next to nulls and other falsy values in positions no typed field
+    # converts, typed lists and dicts whose items have a stored form of their own (secrets, digests, bytes), and a sub-configuration or
+    # a list item that was copied on its own and saved as a document of its own (it still belongs to the application: same key file)
+    peer = cc.Schema()
+    peer.name = cc.StringField(default="p")
+    peer.token = cc.SecureField(method="aes")
+    peer.codes = cc.ListField(cc.SecureField(method="xor"), default=lambda: [])
+    home = os.environ.get("HOME", "")
+    for fmt in FORMATS:
+        n[0] += 1
+        s = cc.Schema()
+        s.words = cc.ListField(default=lambda: [])
+        s.items = cc.ListField(default=lambda: [])
+        s.table = cc.DictField(default=lambda: {})
+        s.anything = cc.Field()
+        s.empty = cc.StringField(default="x")
+        s.tokens = cc.ListField(cc.SecureField(method="aes"), default=lambda: [])
+        s.pins = cc.DictField(cc.StringField(), cc.SecureField(method="xor"), default=dict)
+        s.blobs = cc.ListField(cc.BytesField(), default=lambda: [])
+        s.hashes = cc.ListField(cc.ChallengeField("md5"), default=lambda: [])
+        s.sub.token = cc.SecureField(method="xor")
+        s.sub.label = cc.StringField(default="l")
+        s.peers = cc.ListField(peer, default=lambda: [])
+        kp = os.path.join(tmp, "sk-%d" % n[0])
+        dest = os.path.join(tmp, "sd-%d" % n[0])
+        cfg = s(key_filename=kp)
+        cfg.words = ["a", "", "b"]
+        cfg.items = [0, "", False, [], {}, None, [""], {"k": ""}]
+        cfg.table = {"empty": "", "none": None, "zero": 0, "nested": {"e": "", "l": [""]}}
+        cfg.anything = ""
+        cfg.empty = ""
+        cfg.tokens = ["tok-1", "tok-2"]
+        cfg.pins = {"a": "1234", "b": "5678"}
+        cfg.blobs = [b"\x00\x01", b""]
+        cfg.hashes = ["pw-1"]
+        cfg.sub.token = "sub-token"
+        cfg.peers = [{"name": "p1", "token": "peer-token", "codes": ["c1", "c2"]}]
+        case = {"stream": "save-shapes", "fmt": fmt}
+        res.case(stable(case), kind="save-shapes:" + fmt)
+        try:
+            cfg.save(dest, fmt)
+            saved = True
+        except Exception as e:  # noqa
+            res.hist["save-shapes:save-raised:%s:%s" % (fmt, type(e).__name__)] += 1
+            saved = False
+        if saved:
+            loads_back(s, cfg, dest, fmt, kp, {}, case, "save-shapes")
+        default_key = os.path.join(home, ".cincokey")
+        stamp = open(default_key, "rb").read() if os.path.exists(default_key) else None
+        for what, part, part_schema in (("sub-configuration", lambda c: c.sub, s.sub), ("list-item", lambda c: c.peers[0], peer)):
+            dup = copy.deepcopy(part(cfg))
+            dest2 = os.path.join(tmp, "sd-%d-%s" % (n[0], what))
+            case2 = {"stream": "save-shapes", "fmt": fmt, "saved": "a copy of a " + what}
+            res.case(stable(case2), kind="save-shapes:copy:" + fmt)
+            try:
+                dup.save(dest2, fmt)
+            except Exception as e:  # noqa
+                res.hist["save-shapes:copy-save-raised:%s" % type(e).__name__] += 1
+                continue
+            fresh = part_schema(key_filename=kp) if what == "list-item" else part(s(key_filename=kp))
+            try:
+                fresh.load(dest2, fmt)
+                same = asdict(fresh) == asdict(dup) == asdict(part(cfg))
+                err = None
+            except Exception as e:  # noqa
+                same, err = False, "%s: %s" % (type(e).__name__, str(e)[:100])
+            if not same:
+                res.violate("C19:reload-fails:copy-saved-on-its-own", "the file a copied %s saved on its own does not load back into an equal configuration under the application's "
+                            "key file" % what, dict(case2, error=err))
+            now = open(default_key, "rb").read() if os.path.exists(default_key) else None
+            if now != stamp:
+                res.violate("C19:other-key-file-touched", "saving a copied %s created / changed the default key file although the application names its own" % what, case2)
+                stamp = now
     # (b)
     for fmt, optname, values in (("yaml", "root_key", ["server", "mode", "secret", "CONFIG", None, ""]), ("xml", "root_tag", ["server", "mode", "config", "host"])):
         for v in values:
